@@ -637,6 +637,14 @@ def burst_mutations():
     return st.tuples(st.lists(add0, min_size=4, max_size=8), st.lists(dele, min_size=2, max_size=5), st.lists(add0, min_size=2, max_size=5), st.lists(link, max_size=4)).map(lambda t: t[0] + t[1] + t[2] + t[3])
 
 
+def desc_mutations():
+    """Nested containers, leaves deleted from the highest index downwards, then new children anywhere: the
+    free indices lie on both sides of the parents that get children."""
+    add_c = st.tuples(st.just("add_node"), st.sampled_from(["dfg", "dfg", "custom", "noop"]), SEL, st.none(), st.none()).map(list)
+    dele = st.tuples(st.just("delete_node"), st.sampled_from([-1, -1, -2, 0, 1])).map(list)
+    return st.tuples(st.lists(add_c, min_size=4, max_size=9), st.lists(dele, min_size=2, max_size=4), st.lists(add_c, min_size=1, max_size=4)).map(lambda t: t[0] + t[1] + t[2])
+
+
 def holes_mutations():
     """Additions and links, then deletions only (several indices free at once, freed in any order, live
     nodes and link ends above and between them), then at most two additions."""
